@@ -20,7 +20,11 @@ int yr_modules_unload_all(YR_SCAN_CONTEXT* context)
 #include "arena.c"
 #include "sizedstr.c"
 #ifdef VF_WITH_RE
+/* re.c is included for yr_re_fast_exec; the full regex VM yr_re_exec is renamed out of reach (its symbolic
+   execution is intractable, DESIGN P7) and the name keeps the must-be-unreachable stub of scan_env.h */
+#define yr_re_exec vf_real_yr_re_exec
 #include "re.c"
+#undef yr_re_exec
 #endif
 #include "scan.c"
 #include "exec.c"
